@@ -88,6 +88,25 @@ def faults(quick: bool):
     for sec_key in ("python.outputDir", "json.outputDir", "matlab.outputDir", "cpp.sourcesOutputDir"):
         # an empty output directory given on the command line: the later back ends fail after the earlier ones have written
         out.append(("override:empty-%s" % sec_key, ("args", ["-c", sec_key + "="])))
+    # borderline packages: names that are legal in the model but hostile to one of the target languages (reserved words, names the generators emit,
+    # pairs that only differ in capitalisation). Whether yardl accepts them is not this property's business - but IF the run fails, at whatever stage
+    # (a back end that objects after an earlier back end has written), nothing may have been touched. A run that exits 0 is counted, not judged.
+    from props import C08
+    pairs = C08.COLLIDING_PAIRS + [("imageId", "imageID"), ("rawData", "rawDATA")]
+    for a, b in pairs if not quick else pairs[::2] + pairs[-2:-1]:
+        shapes = {"fields": "Bl: !record\n  fields:\n    %s: int\n    %s: int\n" % (a, b),
+                  "field+computed": "Bl: !record\n  fields:\n    %s: int\n  computedFields:\n    %s: %s + 1\n" % (a, b, a),
+                  "steps": "Bl: !protocol\n  sequence:\n    %s: int\n    %s: int\n" % (a, b),
+                  "symbols": "Bl: !enum\n  values: [%s, %s]\n" % (a, b),
+                  "tags": "Bl: !union\n  %s: int\n  %s: string\n" % (a, b),
+                  "types": "%s: !record\n  fields:\n    x: int\n%s: !record\n  fields:\n    x: int\n" % (a[:1].upper() + a[1:], b[:1].upper() + b[1:])}
+        for sn, text in shapes.items():
+            out.append(("borderline:%s:%s/%s" % (sn, a, b), ("files", {"main/model.yml": C09.VALID_MAIN + text})))
+    names = C08.MEMBER_NAMES if not quick else C08.MEMBER_NAMES[::9]
+    for nm in names:
+        out.append(("borderline:member:%s" % nm, ("files", {"main/model.yml": C09.VALID_MAIN + "Bl: !record\n  fields:\n    %s: int\n  computedFields:\n    %sValue: %s\nBlP: !protocol\n  sequence:\n    %s: Bl\n" % (nm, nm, nm, nm)})))
+    for nm in (C08.TYPE_NAMES if not quick else C08.TYPE_NAMES[::7]):
+        out.append(("borderline:type:%s" % nm, ("files", {"main/model.yml": C09.VALID_MAIN + "%s: !record\n  fields:\n    x: int\nBlP: !protocol\n  sequence:\n    s: %s\n" % (nm, nm)})))
     return out
 
 
@@ -162,7 +181,8 @@ def run(ctx):
     states = ["empty", "populated", "populated+foreign"]
     ctx.rule = ("%d faults (rule violations in main / second file / import / previous version, breaking evolutions, manifest faults, YAML garbage, bad "
                 "overrides) x %d output configurations x 3 initial states; distinct = (fault, configuration, state); every case is a failing run by construction "
-                "(a case where generate exits 0 is reported as not-a-fault and not counted)." % (len(fl), len(cfgs)))
+                "(a case where generate exits 0 is reported as not-a-fault and not counted). %d of the faults are borderline packages (names hostile to a target language): those are judged "
+                "only when the run fails, and counted as borderline-accepted otherwise." % (len(fl), len(cfgs), len([1 for f, _ in fl if f.startswith("borderline:")])))
     ctx.assumptions = ["HOME is a scratch directory outside the snapshot (yardl creates ~/.yardl/cache at start-up)",
                        "the pre-fault tree generates successfully (checked per configuration)"]
     jobs = []
@@ -178,7 +198,7 @@ def run(ctx):
 
     def one(job):
         fid, fault, cfg, st = job
-        base = os.path.join(ctx.workdir, "cases", "%s_%s_%s" % (fid.replace(":", "_").replace("@", "_"), cfg, st.replace("+", "_")))
+        base = os.path.join(ctx.workdir, "cases", "%s_%s_%s" % (fid.replace(":", "_").replace("@", "_").replace("/", "~"), cfg, st.replace("+", "_")))
         shutil.rmtree(base, ignore_errors=True)
         pkgdir = make_case(base, cfg, fault)
         if st != "empty":
@@ -212,7 +232,9 @@ def run(ctx):
         ok = True
         if p.timed_out:
             raise Inconclusive("watchdog")
-        if p.rc == 0:
+        if p.rc == 0 and fid.startswith("borderline:"):
+            ctx.count("borderline-accepted")
+        elif p.rc == 0:
             ctx.count("not-a-fault")
             ctx.violation("fault-accepted:%s" % fid.split("@")[0], "%s: generate exits 0 on a package that must fail" % what, {"case_dir": base, "proc": p.brief()})
             ok = False
